@@ -13,9 +13,11 @@ RULE = ("stream system judged by `kmodel sysobjects C01`: seeded histories (ROA/
 
 DUE = ["before_next=30", "next_hours=24"]
 RENEW = ["roa_reissue=60", "aspa_reissue=60", "bgpsec_reissue=60"]
-QUICK = [("default", 14, 16, []), ("roll", 8, 18, ["profile=roll"]), ("due", 5, 14, DUE), ("renew", 4, 12, RENEW)]
-THOROUGH = [("default", 300, 36, []), ("roll", 200, 40, ["profile=roll"]), ("due", 100, 30, DUE),
-            ("renew", 80, 30, RENEW)]
+QUICK = [("default", 10, 16, []), ("maint", 6, 16, ["profile=maint"]), ("roll", 8, 18, ["profile=roll"]),
+         ("due", 4, 14, DUE + ["profile=maint"]), ("renew", 4, 12, RENEW + ["profile=maint"])]
+THOROUGH = [("default", 240, 36, []), ("maint", 160, 36, ["profile=maint"]), ("roll", 200, 40, ["profile=roll"]),
+            ("rollmaint", 100, 40, ["profile=roll,maint"]), ("due", 100, 30, DUE + ["profile=maint"]),
+            ("renew", 80, 30, RENEW + ["profile=maint"])]
 
 ASSUME = [
     "resource sets are whole atoms (AS + /16 + /48) as the harness hands them out; rpki-rs block arithmetic is not modelled",
